@@ -11,7 +11,7 @@ import (
 
 type c06Case struct {
 	Layout  []int  `json:"layout"`   // indices into the layout item alphabet
-	UseForm int    `json:"use_form"` // 0: @use("lay")   1: @use("~lay") = layouts/lay   2: a name with a tilde inside   3: @use("lay") written behind the inserts
+	UseForm int    `json:"use_form"` // 0: @use("lay")   1: @use("~lay") = layouts/lay   2: a name with a tilde inside   3: @use("lay") written behind the inserts   4: a layout whose name ends in the extension
 	InsA    int    `json:"ins_a"`    // 0 absent, 1.. forms
 	InsB    int    `json:"ins_b"`
 	BFirst  bool   `json:"b_first,omitempty"`
@@ -121,6 +121,9 @@ func c06Build(cs c06Case) c06Built {
 	}
 	if cs.UseForm == 2 { // a tilde inside the name is a character like any other
 		layName, useName = "shared/lay~old", "shared/lay~old"
+	}
+	if cs.UseForm == 4 { // the layout's name itself ends in the extension (file lay.tw.tw)
+		layName, useName = "lay"+ext, "lay"+ext
 	}
 	var lnodes []*Node
 	reserves := map[string]bool{}
@@ -342,6 +345,9 @@ func c06Run(c *Ctx) {
 							continue
 						}
 						for data := 0; data < 3; data++ {
+							if k == 3 && !c.Thorough() && data != (ia+ib+idx[0])%3 {
+								continue // quick tier: three-item layouts take one of the three data maps in rotation
+							}
 							// use form, junk and configuration rotate (all combinations in the thorough tier)
 							combos := [][4]int{{int(order) % 2, int(order/2) % 2, int(order/4) % 2, int(order/8) % 2}}
 							if (c.Thorough() && k <= 3) || k <= 2 {
@@ -366,6 +372,10 @@ func c06Run(c *Ctx) {
 		for ia := 0; ia < c06InsForms; ia++ {
 			for _, cfg := range []int{0, 1} {
 				if !do(c06Case{Layout: []int{0, 1, 7}, UseForm: 2, InsA: ia, InsB: (ia + 1) % c06InsForms, Data: 0, Cfg: cfg}) {
+					return
+				}
+				// a layout whose name ends in the extension
+				if !do(c06Case{Layout: []int{0, 1, 7}, UseForm: 4, InsA: ia, InsB: (ia + 3) % c06InsForms, Data: 0, Cfg: cfg}) {
 					return
 				}
 				// @use written behind the inserts of the page
